@@ -105,4 +105,163 @@ def stream {D : Type} [DecidableEq D] (c : Cfg) (H : List Nat → D) (h : Hdr D)
       | .error e => .error (chunks.length + 1, e)
       | .ok s => .ok s
 
+/-!
+## Authentication of a sealed object with the node's shared session-token cache
+
+`icrypto.AuthenticateObject` (`internal/crypto/object.go`) as called by `FormatValidator.validate`: the checks that
+depend on the session token alone (its own signature) are memoised per TOKEN in `ObjectSessionsCache`
+(`internal/sessions`, an LRU keyed by the SHA-256 of the encoded token); the checks that depend on the OBJECT
+(the token is issued for the key that signed the object, the token's issuer is the object's owner, the object's
+signature) are evaluated for every object. Users and keys are numbers; a token is named by its cache key
+(`T : Nat → Tok`: the key determines the token — collision freeness of SHA-256 is assumed).
+-/
+
+structure Tok where
+  /-- V1: `Issuer()`, V2: `OriginalIssuer()` -/
+  issuer : Nat
+  /-- V1: the user of the session (auth) key, V2: the subject -/
+  subject : Nat
+  /-- the token is correctly signed by its issuer (`AuthenticateToken` / `AuthenticateTokenV2`) -/
+  sigValid : Bool
+  deriving DecidableEq, Repr
+
+structure AObj where
+  owner : Nat
+  /-- user of the public key carried by the object's signature -/
+  signer : Nat
+  /-- the signature is a signature of the object's ID under that key -/
+  sigOk : Bool
+  /-- cache key of the session token in the header -/
+  tok : Option Nat
+  deriving DecidableEq, Repr
+
+inductive AuthErr | sessionKey | sessionToken | sessionOwner | signature | owner
+  deriving DecidableEq, Repr
+
+/-- `ObjectSessionsCache`: most recently used first, `(token, the token is authentic)` -/
+abbrev Cache := List (Nat × Bool)
+
+/-- `AuthenticateTokenV1/V2(key, authOnMiss)`: `lru.Get` (a hit becomes the most recent entry), on a miss the
+result of `authOnMiss` is added and the least recently used entry is evicted beyond `cap` -/
+def cacheAuth (cap : Nat) (c : Cache) (k : Nat) (onMiss : Bool) : Cache × Bool :=
+  match c.lookup k with
+  | some v => ((k, v) :: c.filter (fun e => e.1 != k), v)
+  | none => (((k, onMiss) :: c).take cap, onMiss)
+
+/-- `AuthenticateObject` for ECDSA schemes -/
+def authenticate (T : Nat → Tok) (cap : Nat) (c : Cache) (o : AObj) : Cache × Option AuthErr :=
+  match o.tok with
+  | none =>
+    if !o.sigOk then (c, some .signature)
+    else if o.signer != o.owner then (c, some .owner)
+    else (c, none)
+  | some k =>
+    let t := T k
+    if t.subject != o.signer then (c, some .sessionKey)
+    else
+      let r := cacheAuth cap c k t.sigValid
+      if !r.2 then (r.1, some .sessionToken)
+      else if t.issuer != o.owner then (r.1, some .sessionOwner)
+      else if !o.sigOk then (r.1, some .signature)
+      else (r.1, none)
+
+/-- a sequence of objects validated by ONE validator (one cache) -/
+def authSeq (T : Nat → Tok) (cap : Nat) : Cache → List AObj → List (Option AuthErr)
+  | _, [] => []
+  | c, o :: os => let r := authenticate T cap c o; r.2 :: authSeq T cap r.1 os
+
+/-- the cache after a sequence -/
+def authCache (T : Nat → Tok) (cap : Nat) : Cache → List AObj → Cache
+  | c, [] => c
+  | c, o :: os => authCache T cap (authenticate T cap c o).1 os
+
+/-!
+## The entry points through which an object reaches a node's local storage
+
+`Streamer` + `validatingTarget` + `distributedTarget.Close` (a PUT stream served by this node, for the whole
+network or local-only) and `Service.ValidateAndStoreObjectLocally` (the storage step of `Replicate`). The
+object is abstracted to its type and two verdicts: `hdrOk` (`FormatValidator.Validate` accepts the header) and
+`contentOk` (`FormatValidator.ValidateContent` accepts: tombstone target rules, link payload and chain, no
+payload in tombstone/lock). Size and checksum are as declared (that part is the stream model above).
+-/
+
+inductive OType | regular | tombstone | lock | link
+  deriving DecidableEq, Repr
+
+structure EObj where
+  typ : OType
+  hdrOk : Bool
+  contentOk : Bool
+  deriving DecidableEq, Repr
+
+inductive EErr | policy | format | content | fail
+  deriving DecidableEq, Repr
+
+/-- `distributedTarget.Close` up to `saveObject`: tombstone and link content is not checked by a node outside
+the container (a container node checks it when the object reaches it) -/
+def closeChecks (inContainer : Bool) (o : EObj) : Bool :=
+  ((o.typ == .link || o.typ == .tombstone) && !inContainer) || o.contentOk
+
+/-- a PUT stream served by one node: `preparePrm`, `validatingTarget`, `distributedTarget.Close` up to `saveObject` -/
+def putChecks (inContainer localOnly : Bool) (o : EObj) : Except EErr Unit :=
+  if !inContainer && localOnly then .error .policy
+  else if !o.hdrOk then .error .format
+  else if !closeChecks inContainer o then .error .content
+  else .ok ()
+
+/-- `ValidateAndStoreObjectLocally` -/
+def replicateChecks (o : EObj) : Except EErr Unit :=
+  if !o.hdrOk then .error .format
+  else if !o.contentOk then .error .content
+  else .ok ()
+
+/-- how a request enters the cluster of the tie: container nodes 1 and 2 (REP 2), node 3 outside -/
+inductive Route
+  | put        -- PUT at container node 1: stored locally, replicated to node 2 (`Replicate`)
+  | putLocal   -- local-only PUT (TTL 1) at container node 1
+  | relay      -- PUT at node 3 outside the container: forwarded to nodes 1 and 2 as local-only PUTs
+  | relayLocal -- local-only PUT at node 3: refused
+  | replicate  -- `Replicate` to container node 1
+  deriving DecidableEq, Repr
+
+def okNodes (l : List (Nat × Except EErr Unit)) : List Nat :=
+  l.filterMap fun x => match x.2 with | .ok _ => some x.1 | .error _ => none
+
+/-- verdict for the sender and the nodes whose local storage received the object. `nodeSeals`: the object arrives
+unsealed and the serving node slices and signs it itself (trusted path: `sessionSigner` is set). -/
+def cluster (r : Route) (nodeSeals : Bool) (o : EObj) : Except EErr Unit × List Nat :=
+  match r with
+  | .put =>
+    match putChecks true false o with
+    | .error e => (.error e, [])
+    | .ok _ =>
+      match replicateChecks o with
+      | .ok _ => (.ok (), [1, 2])
+      | .error _ => (.error .fail, [1])
+  | .putLocal =>
+    match putChecks true true o with
+    | .error e => (.error e, [])
+    | .ok _ =>
+      -- `saveObject` keeps the operation on this node only when `localOnly && sessionSigner == nil`, or for the
+      -- objects that go through `distributeObject`; a REGULAR object sealed by this node is placed by the REP rules
+      -- (the other container node receives it as a local-only PUT)
+      if nodeSeals && o.typ == .regular then
+        let stored := 1 :: okNodes [(2, putChecks true true o)]
+        (if stored.length = 2 then .ok () else .error .fail, stored)
+      else (.ok (), [1])
+  | .relay =>
+    match putChecks false false o with
+    | .error e => (.error e, [])
+    | .ok _ =>
+      let stored := okNodes [(1, putChecks true true o), (2, putChecks true true o)]
+      (if stored.length = 2 then .ok () else .error .fail, stored)
+  | .relayLocal =>
+    match putChecks false true o with
+    | .error e => (.error e, [])
+    | .ok _ => (.ok (), [])
+  | .replicate =>
+    match replicateChecks o with
+    | .error e => (.error e, [])
+    | .ok _ => (.ok (), [1])
+
 end NeoFS.Validate
